@@ -113,8 +113,7 @@ impl Process for SelectionProcess {
         let result = self.getter.get(&context);
         let new_context = context.with_result(&self.name, result);
 
-        self.next.process(new_context)?;
-        Ok(ProcessDesision::Continue)
+        self.next.process(new_context)
     }
 }
 
